@@ -254,7 +254,10 @@ func (s *AccumulatingGroup) Groups(sort sorting.NameSorter) []GroupKey {
 		sorting.SortBy(ret, byValueThenGroup, func(x GroupKey) [2]string {
 			ctx.groupKey = string(x)
 			ctx.rowLookup = func(row string) string {
-				return s.data[x][s.colIdxLookup[row]]
+				if idx, ok := s.colIdxLookup[row]; ok {
+					return s.data[x][idx]
+				}
+				return ""
 			}
 			return [2]string{s.sortExpr.BuildKey(&ctx), string(x)}
 		})
